@@ -130,3 +130,11 @@ def c13(F, R, tier):
     mod.check(F, R)
     import c04
     c04.tableau_readback(F, R)
+
+
+@prop("C19",
+      technique="static: sibling agreement of the static (can_apply_*, get_type) and runtime (apply_*_op) operator tables extracted from typed HIR and evaluated over the full finite kind x operator x kind domain; error-conversion rule; inventory of Any escapes",
+      explanation="Decides (S-OPS) for all 10 x 9 x 12 (kind, binary operator, kind) and 10 x 2 unary cells: whenever PrimitiveKind::can_apply_* accepts, the runtime arm selected in the ApplyOp impls cannot build a type-class OperatorError; (S-RESULT) for the 4 x 4 x 4 numeric cells and negation, the kind PreExp::get_type predicts is the Primitive variant the runtime arm builds (through checked_i64/checked_u64/checked_div); (ERR-KIND) no variant-blind `Err(_)` arm converts an error enum that has data-dependent variants (DivisionByZero, Overflow, ...) into a type-class TransformError; (S-ANY) every construct where the checker waves PrimitiveKind::Any through is enumerated (each is a hole in soundness by construction). NOT decided: element kinds of iterables/tuples/graphs, builtin function signatures vs their call bodies (S-FN, not built), user-supplied functions.")
+def c19(F, R, tier):
+    import c19 as mod
+    mod.check(F, R)
